@@ -52,7 +52,7 @@ REQUIRED_THEOREMS = [
     # the conditions define (both faces, value / derivative, corner square), multi-axis statements at the real eps
     "insert_compiled_ghost_integral3", "insert_conserves_compiled_ghost3", "insert_conserves_compiled_ghost3_eps",
     "interpolate_to_grid_spec", "interpolate_to_grid_same_grid", "interpolate_to_grid_same_grid2",
-    "interpolate_to_grid_same_grid3", "interpolate_to_grid_outside",
+    "interpolate_to_grid_same_grid3", "interpolate_to_grid_affine", "interpolate_to_grid_outside",
     "padFull1", "padFull2_x", "padFull2_y", "padFull3_x", "padFull2_corner",
     "bc_mode_approaches_imposed_condition", "bc_mode_approaches_imposed_condition2",
     "bc_mode_approaches_imposed_condition2_y", "bc_mode_approaches_imposed_condition3",
